@@ -88,9 +88,13 @@ X = {
  "C01": " Every case is judged in a fresh ProofD object and in one that verified an honest proof before and was overwritten field by field (the verdict must not depend on the object's history).",
  "C04": " Builder.tla adds the caller's view of the DisclosureProofBuilder: the list of indices in any order and with repetitions, and TimestampRequestContributions asked for in every phase of the life cycle; every complete life cycle is driven through the real builder.",
  "C05": " Every forged case is also judged in a CLSignature object that verified a genuine signature before and was overwritten in place. CLSign.tla models the issuer under every scripted random stream (SignerSound, VInRange, FirstPrime); every script is fed to SignMessageBlock through a replaced crypto/rand.Reader.",
- "C09": " Witness.Updated is part of the model's witness and of every comparison; RevocationGen3.tla enumerates every sequence of 3 (4) applications of one shared update object to three witnesses lagging behind by different amounts, each replayed step by step.",
+ "C09": " ApplyForeign (updates of another accumulator under the same key, D34) and Redecode (a message decoded into a used Update, D35) are actions of the model. Witness.Updated is part of the model's witness and of every comparison; RevocationGen3.tla enumerates every sequence of 3 (4) applications of one shared update object to three witnesses lagging behind by different amounts, each replayed step by step.",
  "C11": " Attacks include degenerate group elements: Cr / Cu replaced by a representative of 0 mod n and a proof built from scratch by a (possibly revoked) holder around Cr = Cu = 0 with zeros hashed (D28, repaired).",
- "C12": " ZkProof.tla (Qr variant) checks the representation-proof engine the range proofs use in a concrete toy group and is replayed exactly on the real zkproof package. The attachment model has range proofs with commitments 0 mod n (switch NonzeroCs, D27, repaired): forge-zero cases are built for real by a prover that hashes zeros.",
+ "C13": " The limit of the three-squares table is the DOCUMENTED one (differences up to and including the table limit; D46, repaired).",
+ "C14": " Alterations include fields left out of the second message (null after decoding) and numbers negated in memory (D43, repaired), and re-divisions of adjacent numbers that keep the concatenated bytes.",
+ "C10": " Mutations include negated and missing event values and a missing accumulator; entry points include re-verification under an unrelated key and FlattenEventLists; RevAPI.tla replays the life cycle of the message objects (built / decoded into fresh or used variables / verified or not / read from storage). D36-D40, D42 repaired.",
+ "C06": " The issuer role of the harness does not validate anything on behalf of the library (D45: IssueSignature without nonce, repaired).",
+ "C12": " RangeFS.tla models the range proof as a game with the order of the prover's choices explicit (D44: the challenge did not cover the commitments C_i - repaired); a forging prover replays it. ZkProof.tla (Qr variant) checks the representation-proof engine the range proofs use in a concrete toy group and is replayed exactly on the real zkproof package. The attachment model has range proofs with commitments 0 mod n (switch NonzeroCs, D27, repaired): forge-zero cases are built for real by a prover that hashes zeros.",
  "C08": " Every wrong-type mutation is replayed with all 12 concrete wrong values (other JSON types, fractions, negatives, non-base64, padding-only and badly padded base64).",
 }
 def main():
